@@ -388,6 +388,20 @@ TREES = {
 }
 
 
+def _tree_family(d):
+    """thorough tier: every tree of a small family (absent / empty / explicit default / values)"""
+    leafs = [[c, v] for c in (0, 2) for v in (0, 5)]
+    if d == 1:
+        return [t for t in H.all_leaf_fibers(3, [0, 5, 7])]
+    subs1 = [[], [[0, 0]], [[1, 5]], [[0, 5], [2, 7]]]
+    if d == 2:
+        return [[[c, s] for c, s in zip((0, 2), combo) if s is not None]
+                for combo in itertools.product([None] + subs1, repeat=2)]
+    subs2 = [[], [[1, []]], [[0, [[1, 5]]]], [[0, [[0, 0]]], [2, [[2, 7]]]]]
+    return [[[c, s] for c, s in zip((0, 1), combo) if s is not None]
+            for combo in itertools.product([None] + subs2, repeat=2)]
+
+
 def _xf(d, t, ids, shape, dflt, fmts, mut, op, pre=None):
     return {"prop": PROP, "kind": "xf", "d": d, "t": t, "ids": ids, "shape": shape, "dflt": dflt,
             "fmts": fmts, "mut": mut, "op": op, "pre": pre or []}
@@ -486,6 +500,21 @@ def _small_scope(tier):
             for declared in (False, True):
                 for op in ops:
                     yield _xf(d, t, ids, _cover(t, d) if declared else None, 0, ["C"] * d, False, op)
+        if not quick:
+            fms = _fmt_assignments(d)
+            for t in _tree_family(d):
+                for declared in (False, True):
+                    for dflt in (0, 7):
+                        for op in ops:
+                            i += 1
+                            yield _xf(d, t, ids, _cover(t, d) if declared else None, dflt, fms[i % len(fms)],
+                                      bool(i & 1), op)
+                        for pre, op, nr in _unflatten_cases(d, ids):
+                            i += 1
+                            yield _xf(d, t, ids, _cover(t, d) if declared else None, dflt,
+                                      _fmt_assignments(nr)[i % (2 ** nr)], bool(i & 1), op, pre)
+                        yield {"prop": PROP, "kind": "ctor", "how": "fromFiber", "d": d, "t": t, "ids": ids,
+                               "shape": _cover(t, d) if declared else None, "dflt": dflt}
         # unflatten (operand = flattened tensor; formats are set on the flattened operand)
         for pre, op, nr in _unflatten_cases(d, ids):
             for fmts in _fmt_assignments(nr):
@@ -552,7 +581,7 @@ def _small_scope(tier):
 
 def _random(seed, tier):
     rng = random.Random(seed)
-    n = 1500 if tier == "quick" else 60000
+    n = 1500 if tier == "quick" else 120000
     for i in range(n):
         d = rng.choice([1, 2, 2, 3, 3, 4])
         ids = IDS[:d]
